@@ -516,11 +516,6 @@ let gen_case (toks : string list) : string =
         | ["R"] -> HReset | ["K"] -> HClone
         | _ -> failwith ("bad history op " ^ tok)) in
       if not (mutation_fresh !st hop) then stale := true;
-      (* finding G6: protobuf-go counts a proto3 -0.0 that the generated code drops, so its Size differs and
-         the cache it leaves is not one the model describes *)
-      (match hop with
-       | HRtSize when google && not (neg_zero_free sc (S (vdepth !st.hroot)) !st.hty !st.hroot) -> stale := true
-       | _ -> ());
       let (o, s1) = hstep sc google !st hop in
       st := s1;
       if !stale then "?" else
